@@ -19,6 +19,7 @@ The `general` families use small integers/fractions -> relative tolerance REL_TO
 "up to floating point rounding"); this is the one place floats are compared with a tolerance.
 """
 import math
+import signal
 from fractions import Fraction as F
 
 import usim
@@ -65,6 +66,13 @@ def lim_of(case, x):
 
 
 # ------------------------------------------------------------------ the implementation
+WATCHDOG_S = 20
+
+
+class Livelock(BaseException):
+    pass
+
+
 class Obs:
     def __init__(self):
         self.done = {}       # i -> float completion time
@@ -125,10 +133,28 @@ def run_impl(case, probe=True):
             await pipe.transfer(fl(pv))
             obs.probe = (t0, time.now, pv)
 
+    # a broken implementation may never finish: bound simulated time (generously beyond the fluid
+    # model's end) and, as a last resort against a livelock inside one instant, wall-clock time
+    horizon = 4 * int(fluid(case)[4]) + 64
+
+    def on_alarm(signum, frame):
+        raise Livelock('simulation still running after %d s wall clock' % WATCHDOG_S)
+    old = None
     try:
-        usim.run(main())
+        old = signal.signal(signal.SIGALRM, on_alarm)
+        signal.alarm(WATCHDOG_S)
+    except ValueError:      # not in the main thread
+        old = None
+    try:
+        usim.run(main(), till=horizon)
     except BaseException as e:  # noqa
         obs.errors.append(('run', repr(e)[:300]))
+    finally:
+        if old is not None:
+            signal.alarm(0)
+            signal.signal(signal.SIGALRM, old)
+    if obs.probe is None and probe and not obs.errors:
+        obs.errors.append(('run', 'not finished at time %d (the fluid model ends at %s)' % (horizon, fluid(case)[4])))
     return obs
 
 
